@@ -136,7 +136,12 @@ def parse_expr(text):
     return v
 
 
-def read_registry(path="/repo/pint/default_en.txt"):
+# the tree under test: /repo, or a scratch worktree when tools/mutcheck.sh evaluates a seeded change in isolation (VERIF_PINT_ROOT)
+PINT_ROOT = os.environ.get("VERIF_PINT_ROOT", "/repo").rstrip("/")
+
+
+def read_registry(path=None):
+    path = path or PINT_ROOT + "/pint/default_en.txt"
     lines = read_lines(path)
     R = {"prefixes": {}, "units": {}, "dims": {}, "basedims": [], "aliases": [], "groups": {}, "systems": {},
          "contexts": {}, "defaults": {}, "order": []}
